@@ -433,6 +433,7 @@ func runC05(c *Ctx, r *Report, tier string) {
 		}
 		r.Check(len(memo) == 0, "ENVKEY", name, "the walk stores nothing outside its locals", c.pos(fn.Pos()), "no store to a field, element or package variable", "the result is remembered ("+strings.Join(memo, "; ")+"): a namespace or delimiter changed after the first call is ignored")
 		nWalk := 0
+		walkHeads := map[ssa.Instruction]bool{}
 		for _, b := range c.blocks(fn) {
 			for _, in := range b.Instrs {
 				p, ok := in.(*ssa.Phi)
@@ -444,11 +445,21 @@ func runC05(c *Ctx, r *Report, tier string) {
 					continue
 				}
 				nWalk++
+				walkHeads[p.Block().Instrs[0]] = true
 				ok2 := strings.Contains(t, "Command.Group(assert[*Command](Group.parent(") && strings.Contains(t, "assert[*Group](Group.parent(")
 				r.Check(ok2, "ENVKEY", name, "namespace walk climbs through *Command and *Group parents", c.ipos(p), "walk variable ∈ {option.group, parent.(*Group), parent.(*Command).Group}", "walk variable has provenance "+trunc(t, 200)+": a parent kind is not followed")
 			}
 		}
 		r.Check(nWalk >= 2, "ENVKEY", name, "walks found", c.pos(fn.Pos()), "delimiter walk and namespace walk", fmt.Sprintf("%d walks", nWalk))
+		// no name is returned without the walk having run: the only return reachable before it is the empty one
+		// (an own group without a namespace says nothing about the groups above it)
+		for _, ret := range returnsOf(fn) {
+			if len(ret.Results) != 1 || c.term(ret.Results[0]) == `""` {
+				continue
+			}
+			path, ok := c.MustPass(fn, isInstr(ret), func(x ssa.Instruction) bool { return walkHeads[x] }, nil, nil)
+			r.Check(ok, "ENVKEY", name, "a non-empty name is returned only after the namespace walk", c.ipos(ret), "every path to the return passes a walk over the enclosing groups", "reachable without the walk: "+pathStr(path)+": the namespaces of enclosing groups are dropped")
+		}
 		// concatenation shape
 		okCat := false
 		for _, b := range c.blocks(fn) {
